@@ -83,6 +83,19 @@ mpn_rootrem (mp_ptr rootp, mp_ptr remp,
   ASSERT (up[un - 1] != 0);
   ASSERT (k > 1);
 
+  /* U < 2^k: the root is 1 and the remainder U - 1.  Answer directly, the
+     general code needs scratch space proportional to k.  */
+  if (UNLIKELY (k >= (mp_limb_t) un * GMP_NUMB_BITS))
+    {
+      mp_size_t rn = un;
+      rootp[0] = 1;
+      if (remp == NULL)
+	return un > 1 || up[0] != 1;
+      mpn_sub_1 (remp, up, un, CNST_LIMB (1));
+      MPN_NORMALIZE (remp, rn);
+      return rn;
+    }
+
   if(BELOW_THRESHOLD(un,ROOTREM_THRESHOLD))
   {
 	  if (remp == NULL)
